@@ -39,8 +39,8 @@ PLAN = {
         thorough=[SELF_IDL, *shards("TestC05Rapid", 12, checks=200000), *shards("TestC05Enum", 16), dict(fuzz="FuzzC05Rapid", seconds=60)],
     ),
     "C06": dict(
-        quick=[SELF_IDL, dict(test="TestC06Rapid", checks=20000), *shards("TestC06Mutants", 6), *shards("TestC06Seqs", 4), *shards("TestC06Bytes", 2)],
-        thorough=[SELF_IDL, *shards("TestC06Rapid", 8, checks=200000), *shards("TestC06Mutants", 16), *shards("TestC06Seqs", 8), *shards("TestC06Bytes", 2),
+        quick=[SELF_IDL, dict(test="TestC06Rapid", checks=20000), *shards("TestC06Mutants", 6), *shards("TestC06Seqs", 4), *shards("TestC06Bytes", 2), dict(test="TestC06LongNames")],
+        thorough=[SELF_IDL, *shards("TestC06Rapid", 8, checks=200000), *shards("TestC06Mutants", 16), *shards("TestC06Seqs", 8), *shards("TestC06Bytes", 2), dict(test="TestC06LongNames"),
                   dict(fuzz="FuzzC06", seconds=120)],
     ),
     "C09": dict(
@@ -289,8 +289,8 @@ CLAIM.update({
 })
 
 PLAN["C18"] = dict(
-    quick=[dict(test="TestC18Rapid", checks=3000), *shards("TestC18Enum", 4)],
-    thorough=[*shards("TestC18Rapid", 12, checks=30000), *shards("TestC18Enum", 4), dict(fuzz="FuzzC18", seconds=60)],
+    quick=[dict(test="TestC18Rapid", checks=3000), *shards("TestC18Enum", 4), dict(test="TestC18Twins", checks=600), dict(test="TestC18TwinsFixed")],
+    thorough=[*shards("TestC18Rapid", 12, checks=30000), *shards("TestC18Enum", 4), *shards("TestC18Twins", 6, checks=6000), dict(test="TestC18TwinsFixed"), dict(fuzz="FuzzC18", seconds=60)],
 )
 
 LEVEL.update({"C18": "exploration"})
